@@ -311,3 +311,20 @@ Definition write_step (s : sst) (sid : Z) (frags : list Z) : sst :=
 Definition init_cwnd (mtu mincwnd : Z) : Z :=
   let c := min32 (wrap32 (4 * mtu)) (max32 (wrap32 (2 * mtu)) 4380) in
   if c <? mincwnd then mincwnd else c.
+
+(* ---------- retransmission selection after T3 (getDataPacketsToRetransmit) ----------
+   Walks the in-flight queue from cumulativeTSNAckPoint+1; picks chunks whose retransmit flag is set while
+   they fit min(cwnd, rwnd); the very first chunk of the queue may always go as a zero-window probe.
+   [mtu_ok n] and the burst-budget gate are parameters: they can only end the walk. *)
+Fixpoint rtx_walk (chunks : list schunk) (i : Z) (bytes awnd rwnd : Z) (gate : Z -> bool) : list Z :=
+  match chunks with
+  | [] => []
+  | c :: r =>
+    if negb (sc_rtx c) then rtx_walk r (i + 1) bytes awnd rwnd gate
+    else if (if (i =? 0) && (rwnd <? sc_len c) then false else (bytes + sc_len c >? awnd)) then []
+    else if negb (gate (sc_len c)) then []
+    else i :: rtx_walk r (i + 1) (bytes + sc_len c) awnd rwnd gate
+  end.
+
+Definition rtx_select (s : sst) (gate : Z -> bool) : list Z :=
+  rtx_walk (st_infl s) 0 0 (min32 (st_cwnd s) (st_rwnd s)) (st_rwnd s) gate.
